@@ -11,6 +11,24 @@ CONV = re.compile(r"^core::num::<impl (u|i)(\d+)>::(from|to)_(be|le|ne)_bytes$")
 BITS = re.compile(r"^core::f(\d+)::<impl f(\d+)>::(from|to)_bits$")
 
 
+def value_root(e):
+    """strip bit-preserving conversions from a value expression"""
+    from .flow import canon
+    e = canon(e)
+    for _ in range(8):
+        if not isinstance(e, tuple) or not e:
+            break
+        if e[0] in ("ref", "deref"):
+            e = e[1]
+        elif e[0] == "cast":
+            e = e[2]
+        elif e[0] == "call" and len(e[2]) == 1 and (BITS.match(e[1]) or e[1].rsplit("::", 1)[-1] in ("to_bits", "cast_unsigned", "cast_signed")):
+            e = e[2][0]
+        else:
+            break
+    return e
+
+
 def family_bodies(facts, body):
     """the method body, all closures nested in it, and the private non-trait helper functions it calls (with their
     closures): `try_get_uint_be_impl(self, nbytes)` shared by get_uint and try_get_uint. Trait methods of Buf / BufMut are
@@ -179,10 +197,16 @@ def method_sig(facts, body, trait_path):
             m = CONV.match(path)
             if m:
                 s.transforms.add("%s%s::%s_%s_bytes" % (m.group(1), m.group(2), m.group(3), m.group(4)))
+                if m.group(3) == "to" and t["args"]:
+                    s.notes.append(("encode_arg", eb.operand(t["args"][0], (bi, len(blk["stmts"])))))
                 continue
             m = BITS.match(path)
             if m:
                 s.transforms.add("f%s::%s_bits" % (m.group(2), m.group(3)))
+                if m.group(3) == "to" and t["args"]:
+                    s.notes.append(("encode_arg", eb.operand(t["args"][0], (bi, len(blk["stmts"])))))
+                if m.group(3) == "from" and t["args"]:
+                    s.notes.append(("bits_arg", eb.operand(t["args"][0], (bi, len(blk["stmts"])))))
                 continue
             if res.get("local") and fn["name"] == "sign_extend":
                 loc = (bi, len(blk["stmts"]))
@@ -311,6 +335,20 @@ def run(facts, prop=None):
                         dn = [x for d, x in s.delegates]
                         if not dn or dn[0][-1] != nb or nb != ("param", 2):
                             problems.append("sign_extend width operand differs from the width passed to the unsigned getter")
+            # value flow of a putter: what is encoded (or handed to the delegate) is the caller's value itself - the parameter through
+            # bit-preserving conversions only (to_bits, same-width / widening integer casts), on every path
+            if m.group(2) == "put":
+                vals = [a for tag, a in s.notes if tag == "encode_arg"] + [args[1] for d, args in s.delegates if len(args) > 1]
+                for v in vals:
+                    if value_root(v) != ("param", 2):
+                        problems.append("the value encoded is not the argument itself: %s" % fmt_expr(v)[:80])
+                        break
+            # value flow of a float getter: the bits handed to from_bits are the integer getter's result itself (no arithmetic, no alternative)
+            if m.group(2) == "get" and ty in ("f32", "f64"):
+                for tag, a in s.notes:
+                    if tag == "bits_arg" and (not any(isinstance(x, tuple) and x and x[0] in ("call", "ucall") and NAME.match(str(x[1]).rsplit("::", 1)[-1]) for x in walk(a))
+                                              or any(isinstance(x, tuple) and x and x[0] in ("bin", "un", "phi", "const") for x in walk(a))):
+                        problems.append("from_bits is not applied to the integer getter's result itself: %s" % fmt_expr(a)[:80])
             # sibling agreement
             if n.startswith("try_get_"):
                 sib = n[4:]
